@@ -44,11 +44,12 @@ VReplace(e) == LET d == Docs[e.di]  sl == Slices[e.si] IN
          ELSE IF e.out # sp THEN "bad:TextNotMerged"
          ELSE IF Len(e.out) # Len(d) + SliceSize(sl) - (e.to - e.from) THEN "bad:SizeLaw"
          ELSE IF ~Valid(e.out) THEN "bad:ReturnedInvalid"
+         ELSE IF ~JoinsOK(d, e.from, e.to, sl) THEN "drift:JoinRuleNotApplied"
          ELSE "ok"
     ELSE IF e.res.kind = "raise"
     THEN IF e.res.cls # "ReplaceError" THEN "bad:RaiseClass"
          ELSE IF sl = Cut(d, e.from, e.to) THEN "bad:ReinsertRefused"
-         ELSE IF Valid(sp) /\ DepthsFit(d, e.from, e.to, sl) THEN "drift:RefusedValidSplice"
+         ELSE IF Valid(sp) /\ DepthsFit(d, e.from, e.to, sl) /\ JoinsOK(d, e.from, e.to, sl) THEN "drift:RefusedValidSplice"
          ELSE "ok"
     ELSE "bad:Outcome"
 
